@@ -11,9 +11,13 @@
 (*                                                                         *)
 (* Deviation switch LowerFirst[f] (TRUE = intended): the name is           *)
 (* lower-cased before those early comparisons.                             *)
+(* "Callable" means whatever can be called: a def, a lambda, a             *)
+(* functools.partial, an instance with __call__, a bound method.           *)
+(* Deviation switch AnyCallable (TRUE = intended): FALSE accepts only      *)
+(* functions and methods (routines).                                       *)
 (***************************************************************************)
 EXTENDS Naturals, Sequences, FiniteSets, TLC
-CONSTANTS LowerFirst
+CONSTANTS LowerFirst, AnyCallable
 RF == {"newton", "broyden1", "broyden2", "linearmixing"}
 Functionals == {"solve", "symeig", "rootfinder", "equilibrium", "minimize", "solve_ivp", "quad", "mcquad", "interp1d", "squad"}
 Names == [f \in Functionals |->
@@ -36,22 +40,25 @@ Default == [f \in Functionals |->
    CASE f = "solve" -> "exactsolve" [] f = "symeig" -> "exacteig" [] f \in {"rootfinder", "equilibrium", "minimize"} -> "broyden1"
      [] f = "solve_ivp" -> "rk45" [] f = "quad" -> "leggauss" [] f = "mcquad" -> "mh" [] f \in {"interp1d", "squad"} -> "cspline"]
 ArgClasses == {"none", "exact", "mixedcase", "unknown", "callable", "noncallable"}
+CallableKinds == {"function", "lambda", "partial", "instance", "boundmethod"}
+Routines == {"function", "lambda", "boundmethod"}
 \* which functionals run the method inside an autograd custom function (gradient recording disabled) and
 \* differentiate implicitly (the callable needs no graph of its own)
 Implicit == {"solve", "symeig", "rootfinder", "equilibrium", "minimize", "solve_ivp", "quad", "mcquad"}
 
-Resolve(f, cls, nm) ==
+Resolve(f, cls, nm, ck) ==
    CASE cls = "none" -> Default[f]
      [] cls = "exact" -> nm
      [] cls = "mixedcase" -> IF LowerFirst[f] \/ nm \notin Early[f] THEN nm ELSE "raise"    \* an early comparison that misses sends the name to the wrong table
-     [] cls = "callable" -> "callable"
+     [] cls = "callable" -> IF AnyCallable \/ ck \in Routines THEN "callable" ELSE "raise"
      [] OTHER -> "raise"
 
-VARIABLES f, cls, nm, outcome
-vars == <<f, cls, nm, outcome>>
+VARIABLES f, cls, nm, ck, outcome
+vars == <<f, cls, nm, ck, outcome>>
 Init == /\ f \in Functionals /\ cls \in ArgClasses /\ nm \in Names[f]
         /\ (cls \notin {"exact", "mixedcase"} => nm = CHOOSE x \in Names[f] : TRUE)     \* the name only matters for these classes
-        /\ outcome = Resolve(f, cls, nm)
+        /\ ck \in CallableKinds /\ (cls # "callable" => ck = "function")               \* the kind only matters for callables
+        /\ outcome = Resolve(f, cls, nm, ck)
 Next == UNCHANGED vars
 Spec == Init /\ [][Next]_vars
 CaseInsensitive == cls = "mixedcase" => outcome = nm
